@@ -44,8 +44,17 @@ pub enum LOp {
     InstantFromStr,
     YearMonthFromStr,
     ZonedFromStr,
+    /// PlainDate::from_partial / PlainDateTime::from_partial with every field given (ISO calendar)
+    DateFromPartial,
+    DateTimeFromPartial,
+    /// a date-time in range `.with(every field of the target)`, and the target's neighbour (1 ns away, when in
+    /// range) `.with(the sub-second fields of the target)`
+    DateTimeWith,
+    DateTimeWithNeighbour,
+    /// PlainDate::from_partial in the roc calendar (era + era year + month + day), i.e. through the non-ISO branch
+    DateFromPartialRoc,
 }
-pub const LOPS: [LOp; 17] = [
+pub const LOPS: [LOp; 22] = [
     LOp::DateTryNew,
     LOp::DateNew,
     LOp::DateTimeTryNew,
@@ -63,6 +72,11 @@ pub const LOPS: [LOp; 17] = [
     LOp::InstantFromStr,
     LOp::YearMonthFromStr,
     LOp::ZonedFromStr,
+    LOp::DateFromPartial,
+    LOp::DateTimeFromPartial,
+    LOp::DateTimeWith,
+    LOp::DateTimeWithNeighbour,
+    LOp::DateFromPartialRoc,
 ];
 
 #[derive(Serialize, Deserialize, Debug, Clone)]
@@ -100,8 +114,8 @@ impl SubCheck for LimitSub {
         let (h, mi, s, ms, us, nn) = split_ns(c.ns);
         let near = |n: i64| (n - MIN_DAY).abs() <= 3 || (n - MAX_DAY).abs() <= 3;
         let mut o = Outcome::pass().nontrivial(near(c.day)).class(match c.op {
-            LOp::DateTryNew | LOp::DateNew | LOp::DateFromStr => "date",
-            LOp::DateTimeTryNew | LOp::DateToDateTime | LOp::FromDateAndTime | LOp::DateTimeFromStr => "date-time",
+            LOp::DateTryNew | LOp::DateNew | LOp::DateFromStr | LOp::DateFromPartial | LOp::DateFromPartialRoc => "date",
+            LOp::DateTimeTryNew | LOp::DateToDateTime | LOp::FromDateAndTime | LOp::DateTimeFromStr | LOp::DateTimeFromPartial | LOp::DateTimeWith | LOp::DateTimeWithNeighbour => "date-time",
             LOp::YearMonthNew | LOp::DateToYearMonth | LOp::YearMonthFromStr => "year-month",
             LOp::InstantTryNew | LOp::InstantFromMs | LOp::InstantFromStr => "instant",
             _ => "zoned",
@@ -235,6 +249,57 @@ impl SubCheck for LimitSub {
                 let s_ = format!("{}-{:02}", fmt::year(ymd.y), m);
                 let r = PlainYearMonth::from_str(&s_);
                 verdict!("PlainYearMonth::from_str", ym_in_range(ymd.y, m), r, |v: &PlainYearMonth| format!("{}-{}", v.iso_year(), v.iso_month()));
+            }
+            LOp::DateFromPartial | LOp::DateFromPartialRoc => {
+                use temporal_rs::partial::PartialDate;
+                let pd = if c.op == LOp::DateFromPartial {
+                    PartialDate::new().with_year(Some(y)).with_month(Some(m)).with_day(Some(d))
+                } else {
+                    // roc: year 1 = 1912; years before are counted backwards in the era "roc-inverse" (1911 = 1)
+                    let cal = temporal_rs::Calendar::from_str("roc").expect("roc calendar");
+                    let (era, ey) = if ymd.y >= 1912 { ("roc", ymd.y - 1911) } else { ("roc-inverse", 1912 - ymd.y) };
+                    PartialDate::new()
+                        .with_calendar(cal)
+                        .with_era(tinystr::TinyAsciiStr::<19>::try_from_str(era).ok())
+                        .with_era_year(Some(ey as i32))
+                        .with_month(Some(m))
+                        .with_day(Some(d))
+                };
+                let r = PlainDate::from_partial(pd, Some(ArithmeticOverflow::Reject));
+                let what = if c.op == LOp::DateFromPartial { "PlainDate::from_partial" } else { "PlainDate::from_partial(roc)" };
+                verdict!(what, in_range_date(c.day), r, |v: &PlainDate| format!("{:?}", ymd_of(v)));
+                if let Ok(p) = &r {
+                    chk!(o, ymd_of(p) == ymd, format!("C02/limit/{what}/value"), ymd, ymd_of(p));
+                }
+            }
+            LOp::DateTimeFromPartial | LOp::DateTimeWith | LOp::DateTimeWithNeighbour => {
+                use temporal_rs::partial::{PartialDate, PartialDateTime, PartialTime};
+                let pd = PartialDate::new().with_year(Some(y)).with_month(Some(m)).with_day(Some(d));
+                let pt = PartialTime::new().with_hour(Some(h)).with_minute(Some(mi)).with_second(Some(s)).with_millisecond(Some(ms)).with_microsecond(Some(us)).with_nanosecond(Some(nn));
+                let (what, r) = match c.op {
+                    LOp::DateTimeFromPartial => ("PlainDateTime::from_partial", PlainDateTime::from_partial(PartialDateTime::new().with_partial_date(pd).with_partial_time(pt), Some(ArithmeticOverflow::Reject))),
+                    LOp::DateTimeWith => {
+                        let recv = PlainDateTime::try_new(2000, 6, 15, 12, 30, 30, 500, 500, 500, iso()).expect("receiver");
+                        ("PlainDateTime::with", recv.with(PartialDateTime::new().with_partial_date(pd).with_partial_time(pt), Some(ArithmeticOverflow::Reject)))
+                    }
+                    _ => {
+                        // the neighbour one nanosecond later (or earlier) as receiver, only the sub-second fields supplied
+                        let nb = [abs + 1, abs - 1].into_iter().map(|t| Dt { day: t.div_euclid(DAY) as i64, ns: t.rem_euclid(DAY) }).find(|x| x.in_range());
+                        let Some(nb) = nb else { return o };
+                        let recv = plain_datetime(nb).expect("neighbour in range");
+                        if nb.day != c.day || nb.ns / 1_000_000_000 != c.ns / 1_000_000_000 {
+                            // crossing a second: supply every time field and the date
+                            ("PlainDateTime::with(neighbour)", recv.with(PartialDateTime::new().with_partial_date(pd).with_partial_time(pt), Some(ArithmeticOverflow::Reject)))
+                        } else {
+                            let sub = PartialTime::new().with_millisecond(Some(ms)).with_microsecond(Some(us)).with_nanosecond(Some(nn));
+                            ("PlainDateTime::with(neighbour)", recv.with(PartialDateTime::new().with_partial_time(sub), Some(ArithmeticOverflow::Reject)))
+                        }
+                    }
+                };
+                verdict!(what, dt_ok, r, |v: &PlainDateTime| format!("{:?}", dt_of(v)));
+                if let Ok(p) = &r {
+                    chk!(o, dt_of(p) == Dt { day: c.day, ns: c.ns }, format!("C02/limit/{what}/value"), (c.day, c.ns), dt_of(p));
+                }
             }
             LOp::ZonedFromStr => {
                 let off = fmt::offset_minutes(c.off_min as i64);
